@@ -23,8 +23,9 @@
   printed as sorted `global g` lines); properties are the script's declared ones.
   Expressions also include the object-less `the` forms: `the <key name>` (43 0; 66 n), `the <movie property>` (5f n),
   `the <system property>` (k; 5c 07), `the floatPrecision … the timeoutScript` (k; 5c 00); `the <p> of sprite|cast|sound n`
-  (n; k; 5c 06/09/04/0d; n a literal, plain string or variable — else F20); `the <p> of <obj>` (obj; 61 n; the object's text not
-  starting with `_`, not `tell_obj` / `me`: F142).  Assignment targets: the four variable kinds, `set the <p> of sprite|cast|sound n`
+  (n; k; 5c 06/09/04/0d; n a literal, plain string or variable — else F20); `the <p> of <obj>` (obj; 61 n; obj not a variable
+  called `me`; F142 repaired); chunk expressions `char|word|item|line a [to b] of d` (opcode 17, one filled slot per slice:
+  `d` not itself a coarser chunk); `the number of <chunk>s of e` (5c 01), `the last <chunk> of e` (5c 00, k = 11 + rank).  Assignment targets: the four variable kinds, `set the <p> of sprite|cast|sound n`
   (5d 06/09/04/0d), `set the <system property>` (5d 07), `set the floatPrecision …` (5d 00), `set the <p> of <obj>` (62 n).
 
   WHOLE SCRIPTS (`T_link_all`, `T_C02_all`): `FragScriptM` (DrxProofs/LinkMixed.lean) — every handler is either flat (`FragH`) or
@@ -199,6 +200,10 @@ def exScript : Script :=
                   .set (.the .sys 0x1b []) (.int 255),
                   .set (.the .special 0 []) (.int 4),
                   .set (.oprop "width".toList (.var .loc "q".toList)) (.bin .mul (.oprop "height".toList (.call "rect".toList [.var .loc "z".toList])) (.int 2)),
+                  .set (.var .loc "t".toList) (.bin .concat (.chunk .char (.int 1) (.int 0) (.var .loc "y".toList))
+                      (.chunk .word (.bin .add (.var .loc "z".toList) (.int 1)) (.int 3) (.chunk .char (.int 2) (.int 9) (.field (.int 3))))),
+                  .set (.var .loc "t".toList) (.chunk .line (.int 2) (.int 0) (.chunk .item (.int 1) (.int 2) (.var .loc "t".toList))),
+                  .set (.var .loc "t".toList) (.bin .add (.the .numChunks 2 [.var .loc "t".toList]) (.the .special 12 [.chunk .line (.int 1) (.int 0) (.var .loc "t".toList)])),
                   .call "beep".toList [],
                   .exit ] } ] }
 
@@ -216,7 +221,7 @@ example : ∃ c, compile {} exScript = .ok c ∧ NamesOk c := by
 
 /-- the text the theorem predicts for the example (also the output of the real decompiler on the compiled chunks) -/
 example : String.ofList (mText exScript) =
-    "property score\nglobal gTotal\n\non startUp a, b\n    set x = ((a - (gTotal - 1)) * -(b + 70000))\n    set score = not (x <= 300)\n    set gTotal = sprite 1 within (x + 2)\nend\n\non finish\n    global counter\n    global zLast\n\n    set y = (score & (0 mod 129))\n    set z = max(field 3, [1, y, []])\n    startUp z, startUp(1, 2)\n    alert \"Hi there!\", #warn, (\"a\" && z)\n    set zLast = (counter + gTotal)\n    set w = (the mouseH + (the stageColor + (the floatPrecision + the frameLabel)))\n    set q = [the locH of sprite 3, the name of cast z, the volume of sound 2, the duration of cast \"clip\"]\n    set the locH of sprite z = (the locH of sprite z + 5)\n    set the text of cast \"title\" = \"Done\"\n    set the stageColor = 255\n    set the floatPrecision = 4\n    set the width of q = (the height of rect(z) * 2)\n    beep\n    exit\nend\n" := by
+    "property score\nglobal gTotal\n\non startUp a, b\n    set x = ((a - (gTotal - 1)) * -(b + 70000))\n    set score = not (x <= 300)\n    set gTotal = sprite 1 within (x + 2)\nend\n\non finish\n    global counter\n    global zLast\n\n    set y = (score & (0 mod 129))\n    set z = max(field 3, [1, y, []])\n    startUp z, startUp(1, 2)\n    alert \"Hi there!\", #warn, (\"a\" && z)\n    set zLast = (counter + gTotal)\n    set w = (the mouseH + (the stageColor + (the floatPrecision + the frameLabel)))\n    set q = [the locH of sprite 3, the name of cast z, the volume of sound 2, the duration of cast \"clip\"]\n    set the locH of sprite z = (the locH of sprite z + 5)\n    set the text of cast \"title\" = \"Done\"\n    set the stageColor = 255\n    set the floatPrecision = 4\n    set the width of q = (the height of rect(z) * 2)\n    set t = (char 1 of y & word (z + 1) to 3 of char 2 to 9 of field 3)\n    set t = line 2 of item 1 to 2 of t\n    set t = (the number of words of t + the last char of line 1 of t)\n    beep\n    exit\nend\n" := by
   decide +kernel
 
 /-! ### non-vacuity, structured -/
